@@ -974,6 +974,21 @@ def rule_workcb(ctx, rep, rid):
         rep.must_pass(rid, "resize_cb.mutex-released", f, rs, None, lambda i: i in ul, to_exit=True, what="resize mutex released after the resize loop")
     a0 = ir.expr(f, rs[0].args[0], 4)
     rep.check(a0[0] == "load" and a0[1].endswith("resize_work.ht"), rid, "resize_cb.table", "resizes the table recorded in the work item", "resizes %s" % ir.expr_str(a0), [rs[0].where()])
+    # ... and whoever queues the work item has recorded the table in it (the item comes from malloc) and queues it with this callback
+    nq = 0
+    for g in m.defined():
+        for q in [c for c in g.calls("urcu_workqueue_queue_work")]:
+            if ir.expr(g, q.args[2], 3) != ("fn", f.name) and not (q.args[2] and q.args[2][0] == "f" and q.args[2][1] == f.name):
+                continue
+            nq += 1
+            rep.touch(g)
+            sts = [s_ for s_ in g.all_insts() if s_.op == "store" and s_.d.get("ap") and pat.last_field(s_.d["ap"]) == "resize_work.ht"]
+            good = [s_ for s_ in sts if ir.expr(g, s_.args[0], 3) == ("arg", 0)]
+            if not good:
+                rep.bad(rid, "resize_work.ht@" + g.srcname, "%s queues a resize work item without recording the table in it: the worker resizes whatever the malloc'ed memory held" % g.srcname, [q.where()])
+            else:
+                rep.must_pass(rid, "resize_work.ht@" + g.srcname, g, [g.entry()], [q], lambda i, good=good: i in good, include_start=True, what="work->ht = ht before the work item is queued")
+    pat.require(nq >= 1, "nobody queues do_resize_cb")
 
 
 def rule_count_approx(ctx, rep, rid):
